@@ -145,11 +145,15 @@ func cmdWork(args []string) int {
 	start := time.Now()
 	o := newWorkerOut(*worker)
 	states := map[uint64]bool{}
-	for run := 0; run < *maxRuns; run++ {
-		if time.Since(start).Seconds() > *budget {
-			break
+	if *prop == "C12" || *prop == "C20" {
+		workTrace(*prop, *tier, *seed, *worker, *budget, *maxRuns, o, states)
+	} else {
+		for run := 0; run < *maxRuns; run++ {
+			if time.Since(start).Seconds() > *budget {
+				break
+			}
+			runOne(*prop, *tier, *seed, *worker, run, o, states)
 		}
-		runOne(*prop, *tier, *seed, *worker, run, o, states)
 	}
 	for s := range states {
 		o.States = append(o.States, s)
@@ -196,7 +200,7 @@ func cmdReplay(args []string) int {
 	if rp.Engine == "B" {
 		return replayPar(&rp, args[0])
 	}
-	viol := sim.ExecMode(rp.Property, rp.Tier, rp.Mode, rp.Cfg, rp.Ops)
+	viol := execMode(rp.Property, rp.Tier, rp.Mode, rp.Cfg, rp.Ops)
 	want := ""
 	if rp.Viol != nil {
 		want = rp.Viol.Sig
@@ -297,6 +301,11 @@ func cmdCheck(args []string) int {
 	case "C12", "C20":
 		return checkTrace(*prop, *tier, *seed)
 	}
+	return runWorkers(*prop, *tier, *seed, "A")
+}
+
+func runWorkers(propv, tierv string, seedv uint64, engine string) int {
+	prop, tier, seed := &propv, &tierv, &seedv
 	start := time.Now()
 	tc := tierOf(*prop, *tier)
 	tmp, err := os.MkdirTemp(filepath.Join(verifDir, "tmp"), "work-")
@@ -350,7 +359,7 @@ func cmdCheck(args []string) int {
 		fmt.Fprintf(os.Stderr, "HARNESS-ERROR: %d worker(s) crashed outside an oracle\n", crashed)
 		return 2
 	}
-	return conclude(*prop, *tier, *seed, total, states, start, "A")
+	return conclude(*prop, *tier, *seed, total, states, start, engine)
 }
 
 func tail(s string, n int) string {
@@ -428,10 +437,10 @@ func conclude(prop, tier string, seed uint64, total *WorkerOut, states map[uint6
 		if rp.Engine != "B" {
 			before := len(rp.Ops)
 			rp.Ops = sim.Minimise(rp.Ops, sig, 400, func(ops []sim.Op) []sim.Violation {
-				return sim.ExecMode(prop, tier, rp.Mode, rp.Cfg, ops)
+				return execMode(prop, tier, rp.Mode, rp.Cfg, ops)
 			})
 			// refresh the violation record from the minimised history
-			for _, v := range sim.ExecMode(prop, tier, rp.Mode, rp.Cfg, rp.Ops) {
+			for _, v := range execMode(prop, tier, rp.Mode, rp.Cfg, rp.Ops) {
 				if v.Sig == sig {
 					vv := v
 					rp.Viol = &vv
@@ -544,4 +553,11 @@ func writeEvidence(prop, tier string, seed uint64, t *WorkerOut, states map[uint
 	os.MkdirAll(filepath.Join(verifDir, "evidence"), 0o755)
 	b, _ := json.MarshalIndent(ev, "", " ")
 	os.WriteFile(filepath.Join(verifDir, "evidence", prop+".json"), b, 0o644)
+}
+
+func execMode(prop, tier, mode string, cfg sim.Config, ops []sim.Op) []sim.Violation {
+	if mode == "trace" {
+		return execTraceMode(prop, cfg, ops)
+	}
+	return sim.ExecMode(prop, tier, mode, cfg, ops)
 }
